@@ -125,6 +125,46 @@ theorem forZipEnumFrom_div (dv : BitVec w → BitVec w → Exec (BitVec w)) (q :
       · have h2 : ¬ (i ≤ k ∧ k < i + (cnt + 1)) := by omega
         simp [h1, h2, Slice.set, h3]
 
+/-- the same for any lane operation that is defined on second operands satisfying `P` (`P := True` for the total
+`AutoMath::mul`, `core::cmp::max/min` loops of the NEON 64-bit integer impls) -/
+theorem forZipEnumFrom_op (dv : BitVec w → BitVec w → Exec (BitVec w)) (q : BitVec w → BitVec w → BitVec w)
+    (P : BitVec w → Prop) (a b : Slice (BitVec w)) (hdv : ∀ x y, P y → dv x y = pure (q x y)) :
+    ∀ (cnt i : Nat) (res : Slice (BitVec w)), i + cnt ≤ res.size → (∀ k, i ≤ k → k < i + cnt → P (b.get k)) →
+      ∃ res', forZipEnumFrom a b (fun idx x y st => do
+          let t ← dv x y
+          let r ← arrSet st idx t
+          pure r) cnt i res = pure res'
+        ∧ res'.size = res.size
+        ∧ ∀ k, res'.get k = if i ≤ k ∧ k < i + cnt then q (a.get k) (b.get k) else res.get k := by
+  intro cnt
+  induction cnt with
+  | zero =>
+    intro i res _ _
+    refine ⟨res, rfl, rfl, ?_⟩
+    intro k
+    have : ¬ (i ≤ k ∧ k < i + 0) := by omega
+    rw [if_neg this]
+  | succ cnt ih =>
+    intro i res hsz hnz
+    have hi : i < res.size := by omega
+    unfold forZipEnumFrom
+    rw [hdv _ _ (hnz i (by omega) (by omega))]
+    simp only [pure_bind, arrSet, hi, if_true]
+    obtain ⟨res', e, hs, hg⟩ := ih (i + 1) (res.set i (q (a.get i) (b.get i))) (by show i + 1 + cnt ≤ res.size; omega)
+      (fun k h1 h2 => hnz k (by omega) (by omega))
+    refine ⟨res', e, by rw [hs]; rfl, ?_⟩
+    intro k
+    rw [hg k]
+    by_cases h1 : i + 1 ≤ k ∧ k < i + 1 + cnt
+    · have h2 : i ≤ k ∧ k < i + (cnt + 1) := by omega
+      simp [h1, h2]
+    · by_cases h3 : k = i
+      · subst h3
+        have h2 : k ≤ k ∧ k < k + (cnt + 1) := by omega
+        simp [h1, h2, Slice.set]
+      · have h2 : ¬ (i ≤ k ∧ k < i + (cnt + 1)) := by omega
+        simp [h1, h2, Slice.set, h3]
+
 end divloop
 
 end Cfavml
@@ -174,5 +214,37 @@ theorem lanewise2_of_divLoop {w n L : Nat} (hw : 0 < w) (hL : 0 < L) (hn : w * L
   intro x y hy
   rw [hop]
   exact divLoop_lanewise hw hn z dv q hdv x y (fun k hk => hok _ (hy k hk))
+
+theorem opLoop_lanewise {w n L : Nat} (hw : 0 < w) (hn : w * L ≤ n) (z : BitVec w)
+    (dv : BitVec w → BitVec w → Exec (BitVec w)) (q : BitVec w → BitVec w → BitVec w) (P : BitVec w → Prop)
+    (hdv : ∀ x y, P y → dv x y = pure (q x y)) (x y : BitVec n)
+    (hnz : ∀ k, k < L → P (xlanes w y k)) :
+    ∃ r, divLoop L z dv x y = pure r ∧ ∀ k, k < L → xlanes w r k = q (xlanes w x k) (xlanes w y k) := by
+  obtain ⟨res', e, hs, hg⟩ := forZipEnumFrom_op dv q P (unpackLanes w L x) (unpackLanes w L y) hdv L 0
+    (Slice.replicate L z) (by simp [Slice.replicate]) (fun k _ hk => hnz k (by omega))
+  refine ⟨packLanes w L n res', ?_, ?_⟩
+  · unfold divLoop forZipEnum
+    have : min (unpackLanes w L x).size (unpackLanes w L y).size = L := by simp [unpackLanes]
+    rw [this, e]
+    rfl
+  · intro k hk
+    unfold xlanes packLanes
+    rw [lane_fromLanes w hw L _ k hk hn, hg k]
+    have : 0 ≤ k ∧ k < 0 + L := by omega
+    rw [if_pos this]
+    rfl
+
+/-- the `Lanewise2` record of any operation written as the unpack / scalar loop / pack pattern -/
+theorem lanewise2_of_opLoop {w n L : Nat} (hw : 0 < w) (hL : 0 < L) (hn : w * L ≤ n) (z : BitVec w)
+    (dv : BitVec w → BitVec w → Exec (BitVec w)) (q : BitVec w → BitVec w → BitVec w) (P : BitVec w → Prop)
+    (hdv : ∀ x y, P y → dv x y = pure (q x y))
+    (op : BitVec n → BitVec n → Exec (BitVec n)) (hop : ∀ x y, op x y = divLoop L z dv x y)
+    (opD : DenseLane (BitVec n) → DenseLane (BitVec n) → Exec (DenseLane (BitVec n))) (hD : opD = applyDense2 op) :
+    Lanewise2 L (xlanes w) q P op opD := by
+  rw [hD]
+  apply lanewise2_of_applyDense hL
+  intro x y hy
+  rw [hop]
+  exact opLoop_lanewise hw hn z dv q P hdv x y (fun k hk => hy k hk)
 
 end Cfavml
